@@ -100,3 +100,16 @@ Example C04_set_monitor_delegated_hypothesis_satisfiable :
   map ev_key (members (set_obs_s x_del_case (SetCorr.model_run x_del_case))) = [x_key 1 1].
 Proof. exact m04d_hypothesis_satisfiable. Qed.
 Print Assumptions C04_set_monitor_delegated_hypothesis_satisfiable.
+
+(** The invariant the teardown clauses rest on (SetJudges.m04f): an active ObjectSet that does not carry the cached
+    finalizer issues no member or phase-object write unless the first request of the pass is the successful finalizer
+    patch - so whatever the ObjectSet may control, it controls while holding the finalizer. The clause accepts every
+    pass of the model; with it the whole monitor half of the judge C04 evaluates does. *)
+From PKOCorr Require Import SetJudges.
+Theorem C04_finalizer_before_writes_sound : forall c : scase, m04f (set_obs_s c (SetCorr.model_run c)) = true.
+Proof. exact m04f_sound. Qed.
+Print Assumptions C04_finalizer_before_writes_sound.
+
+Theorem C04_judge_sound : forall c : scase, snd (judge04g (set_obs_s c (SetCorr.model_run c))) = true.
+Proof. exact judge04g_sound. Qed.
+Print Assumptions C04_judge_sound.
